@@ -144,7 +144,7 @@ fn neutral_with_names_problem(rng: &mut Rng) -> Option<String> {
         v.join(["+", "*", "-"][rng.below(3)])
     };
     let (t1, t2) = (pick(rng), pick(rng));
-    let which = rng.below(6);
+    let which = rng.below(9);
     let r = catch(|| -> Option<String> {
         let e = DeepEx::<f64>::parse(&t1).ok()?;
         let carrier = DeepEx::<f64>::parse(&t2).ok()?;
@@ -158,6 +158,9 @@ fn neutral_with_names_problem(rng: &mut Rng) -> Option<String> {
             2 => ("e * one", e * one),
             3 => ("one * e", one * e),
             4 => ("e / one", e / one),
+            6 => ("e * zero", e * zero),
+            7 => ("zero * e", zero * e),
+            8 => ("zero / e", zero / e),
             _ => ("e.pow(one)", e.pow(one)),
         };
         let res = res.ok()?;
@@ -165,6 +168,22 @@ fn neutral_with_names_problem(rng: &mut Rng) -> Option<String> {
             return Some(format!("{what} with e = {t1}, neutral element carrying the variables of {t2}: result lists {:?}, expected the sorted union {want:?}", res.var_names()));
         }
         let vals: Vec<f64> = (0..want.len()).map(|i| 0.7 + i as f64).collect();
+        // a result that is constant in value still has its variables: too few values are an error
+        if !want.is_empty() {
+            let few = &vals[..want.len() - 1];
+            if res.eval(few).is_ok() || res.eval_relaxed(few).is_ok() {
+                return Some(format!("{what} with e = {t1} (neutral element from {t2}): deep result accepts {} values for {} variables", few.len(), want.len()));
+            }
+            let f = FlatEx::<f64>::from_deepex(res.clone()).ok()?;
+            if f.eval(few).is_ok() || f.eval_relaxed(few).is_ok() || f.eval_vec(few.to_vec()).is_ok() {
+                return Some(format!("{what} with e = {t1} (neutral element from {t2}): flat result accepts {} values for {} variables", few.len(), want.len()));
+            }
+            let mut more = vals.clone();
+            more.push(9.0);
+            if f.eval_relaxed(&more).is_err() || res.eval_relaxed(&more).is_err() || f.eval(&more).is_ok() {
+                return Some(format!("{what} with e = {t1} (neutral element from {t2}): wrong Ok/Err with one surplus value"));
+            }
+        }
         if res.eval(&vals).is_err() {
             return Some(format!("{what} with e = {t1} (neutral element from {t2}) does not evaluate with the union's number of values"));
         }
@@ -241,6 +260,10 @@ fn shipped_problem(rng: &mut Rng, st: &mut Stats) -> Option<(String, String)> {
                 if p.eval(&vals).is_err() || p.eval(&vals[..nv - 1]).is_ok() {
                     return Some("derivative does not evaluate with exactly the antiderivative's slice".into());
                 }
+                // also when the derivative collapsed to a constant: relaxed evaluation rejects too few values
+                if p.eval_relaxed(&vals[..nv - 1]).is_ok() || pd.eval_relaxed(&vals[..nv - 1]).is_ok() || p.eval_relaxed(&vals).is_err() || pd.eval(&vals[..nv - 1]).is_ok() {
+                    return Some(format!("derivative w.r.t. {}: relaxed evaluation with {} values for {nv} variables has the wrong Ok/Err", want[idx], nv - 1));
+                }
             }
             None
         }
@@ -250,6 +273,51 @@ fn shipped_problem(rng: &mut Rng, st: &mut Stats) -> Option<(String, String)> {
         Err(m) => Some(format!("panic: {m}")),
     };
     p.map(|p| (text, p))
+}
+
+/// more distinct variables than fit into a byte-sized index: n distinct names (unpadded
+/// decimal suffixes, so text order, numeric order and string order all differ) in shuffled order,
+/// a few of them repeated, on one long chain
+fn many_variables_case(rng: &mut Rng, table: &Table, st: &mut Stats) {
+    let n = match rng.below(6) {
+        0 => 256,
+        1 => 257,
+        2 => rng.range(65, 130),
+        _ => rng.range(250, 520),
+    };
+    let mut names: Vec<String> = (0..n).map(|k| format!("u{k}")).collect();
+    for i in (1..n).rev() {
+        names.swap(i, rng.below(i + 1));
+    }
+    let repeats = rng.range(0, 12);
+    for _ in 0..repeats {
+        let nm = names[rng.below(n)].clone();
+        let at = rng.below(names.len() + 1);
+        names.insert(at, nm);
+    }
+    let bins: Vec<usize> = (0..table.len()).filter(|i| table[*i].bin.is_some()).collect();
+    let k = rng.range(1, bins.len().min(3));
+    let chosen: Vec<usize> = (0..k).map(|_| *rng.pick(&bins)).collect();
+    let operands: Vec<Tree> = names.iter().map(|nm| Tree::var(nm)).collect();
+    let ops: Vec<usize> = (0..operands.len() - 1).map(|_| *rng.pick(&chosen)).collect();
+    let tree = tree_from_chain(&operands, &ops, table);
+    let text = render_plain(&tree, table);
+    let ex = expect(&tree, table);
+    st.bump("cases");
+    st.bump("texts_with_65_to_520_variables");
+    if ex.vars.len() > 256 {
+        st.bump("texts_gt256_variables");
+    }
+    st.max("max_distinct_variables", ex.vars.len() as u64);
+    const MANY_PATHS: &[&str] = &["flat", "flat_wo", "flat_vec", "flat_iter", "deep", "deep2flat"];
+    if let Some((path, m)) = first_mismatch_with(&ex, &text, MANY_PATHS) {
+        let what = m.describe();
+        st.violation(
+            format!("many-variables|{path}|{}|n={}", m.kind(), ex.vars.len()),
+            ex.vars.len(),
+            json!({"kind": "many-variables", "path": path, "variables": ex.vars.len(), "text_begin": text.chars().take(200).collect::<String>(), "table": table_desc(table), "mismatch": what.chars().take(600).collect::<String>()}),
+        );
+    }
 }
 
 pub fn run(ctx: &Ctx) -> i32 {
@@ -322,6 +390,9 @@ pub fn run(ctx: &Ctx) -> i32 {
                     st.violation(format!("neutral|{}", p.chars().take(70).collect::<String>()), p.len(), json!({"kind": "derived-variables-neutral-element", "problem": p}));
                 }
             }
+            if i % 128 == 77 {
+                many_variables_case(rng, &table, st);
+            }
             if i % 8 == 0 {
                 if let Some((text, p)) = shipped_problem(rng, st) {
                     st.violation(format!("shipped|{}", p.chars().take(60).collect::<String>()), text.len(), json!({"kind": "shipped-table-variables", "text": text, "problem": p}));
@@ -336,10 +407,11 @@ pub fn run(ctx: &Ctx) -> i32 {
         }
     });
     let report = Report::new(
-        "texts with 0..40 distinct variables drawn from name families (ASCII mixed case, digits/underscores, Greek, arbitrary braced text incl. spaces, leading/trailing spaces, digits first, emoji, operator look-alikes {sin} {+} {(} {PI}, empty name), bare and braced spelling of the same variable mixed, repeated occurrences; random tables over the term algebra. Oracle: var_names == sorted distinct names (Rust str order) and Var(i) bound at every occurrence of the i-th name on flat/uncompiled/deep/converted forms; every slice length 0..n+3 on eval / eval_relaxed / eval_vec / eval_iter (Err iff wrong; relaxed ignores surplus); derived expressions (operate_binary, subs) list the sorted union; on the shipped float table a derivative lists exactly the antiderivative's variables; the value-typed parser obeys the same rules. distinct_nontrivial = distinct (number of variables, tree shape) classes.",
+        "texts with 0..40 distinct variables (and long chains with 65..520 distinct variables in shuffled order, some repeated) drawn from name families (ASCII mixed case, digits/underscores, Greek, arbitrary braced text incl. spaces, leading/trailing spaces, digits first, emoji, operator look-alikes {sin} {+} {(} {PI}, empty name), bare and braced spelling of the same variable mixed, repeated occurrences; random tables over the term algebra. Oracle: var_names == sorted distinct names (Rust str order) and Var(i) bound at every occurrence of the i-th name on flat/uncompiled/deep/converted forms; every slice length 0..n+3 on eval / eval_relaxed / eval_vec / eval_iter (Err iff wrong; relaxed ignores surplus); derived expressions (operate_binary, subs) list the sorted union; on the shipped float table a derivative lists exactly the antiderivative's variables; the value-typed parser obeys the same rules. distinct_nontrivial = distinct (number of variables, tree shape) classes.",
     )
     .require("texts_gt16_variables", 500)
     .require("texts_without_variables", 100)
+    .require("texts_gt256_variables", 50)
     .require("names_braced_only", 1000)
     .require("names_greek", 1000)
     .require("arity_probes", 10000)
